@@ -27,7 +27,7 @@ package controller
 //@   params (f)
 //@   requires fans.fanWF(f.fan)
 //@   ensures[C05.read C12 C07] f.fan is *fans.HwMonFan && result1 == nil && supportsResult[fans.FeaturePwmSensor] ==> result0 == fileInt[fans.hwPwmPath(f.fan.(*fans.HwMonFan))]
-//@   modifies f.fan.(*fans.HwMonFan).Pwm, f.fan.(*fans.FileFan).Pwm, f.fan.(*fans.CmdFan).Pwm, procWorld, started, lastReadFailed, supportsResult
+//@   modifies f.fan.(*fans.HwMonFan).Pwm, f.fan.(*fans.FileFan).Pwm, f.fan.(*fans.CmdFan).Pwm, procWorld, started, lastReadFailed, enableReads, supportsResult
 
 //@ ghost var setOK gmap[int]bool
 //@ func (*DefaultFanController).setPwm
@@ -44,7 +44,7 @@ package controller
 //@   ensures[C05.device C12 C07] f.fan is *fans.HwMonFan && fans.hwPwmPath(f.fan.(*fans.HwMonFan)) in faithful && (pwmWrites[f.fan] == old(pwmWrites)[f.fan] ==> err == nil) && (pwmWrites[f.fan] != old(pwmWrites)[f.fan] ==> !lastPwmErr[f.fan]) && (pwmWrites[f.fan] == old(pwmWrites)[f.fan] ==> supportsResult[fans.FeaturePwmSensor] && !lastReadFailed) && err == nil ==> fileInt[fans.hwPwmPath(f.fan.(*fans.HwMonFan))] == f.pwmMap[closestOf(target, distinct(f))]
 //@   ensures[C05.enable] f.fan is *fans.HwMonFan ==> fileInt[fans.hwEnablePath(f.fan.(*fans.HwMonFan))] == old(fileInt)[fans.hwEnablePath(f.fan.(*fans.HwMonFan))]
 //@   ensures[C12.once C01 C05] pwmWrites[f.fan] == old(pwmWrites)[f.fan] || (pwmWrites[f.fan] == old(pwmWrites)[f.fan] + 1 && exists s :: nearestIn(distinct(f), s, target) && lastPwm[f.fan] == f.pwmMap[s])
-//@   modifies setOK, f.lastSetPwm, pwmWrites, lastPwm, lastPwmErr, fileInt, procWorld, started, lastReadFailed, supportsResult, f.fan.(*fans.HwMonFan).Pwm, f.fan.(*fans.FileFan).Pwm, f.fan.(*fans.CmdFan).Pwm
+//@   modifies setOK, f.lastSetPwm, pwmWrites, lastPwm, lastPwmErr, fileInt, procWorld, started, lastReadFailed, enableReads, supportsResult, f.fan.(*fans.HwMonFan).Pwm, f.fan.(*fans.FileFan).Pwm, f.fan.(*fans.CmdFan).Pwm
 
 //@ func (*DefaultFanController).updateDistinctPwmValues
 //@   params (f)
@@ -77,7 +77,7 @@ package controller
 //@   ensures f.stats.UnexpectedPwmValueCount >= old(f.stats.UnexpectedPwmValueCount) && f.stats.UnexpectedPwmValueCount <= old(f.stats.UnexpectedPwmValueCount) + 1
 //@   ensures[C05.count] f.fan is *fans.HwMonFan && old(f.lastSetPwm) != nil && f.pwmMap != nil ==> (f.stats.UnexpectedPwmValueCount == old(f.stats.UnexpectedPwmValueCount) + 1) == (supportsResult[fans.FeaturePwmSensor] && !lastReadFailed && fileInt[fans.hwPwmPath(f.fan.(*fans.HwMonFan))] != f.pwmMap[closestOf(old(*f.lastSetPwm), distinct(f))])
 //@   ensures[C05.nocount] (old(f.lastSetPwm) == nil || f.pwmMap == nil) ==> f.stats.UnexpectedPwmValueCount == old(f.stats.UnexpectedPwmValueCount)
-//@   modifies f.stats.UnexpectedPwmValueCount, f.fan.(*fans.HwMonFan).Pwm, f.fan.(*fans.FileFan).Pwm, f.fan.(*fans.CmdFan).Pwm, procWorld, started, lastReadFailed, supportsResult
+//@   modifies f.stats.UnexpectedPwmValueCount, f.fan.(*fans.HwMonFan).Pwm, f.fan.(*fans.FileFan).Pwm, f.fan.(*fans.CmdFan).Pwm, procWorld, started, lastReadFailed, enableReads, supportsResult
 
 //@ pure rescaleOf(v int, lo int, hi int) int = lo + int((float64(v) / 255.0) * (float64(hi) - float64(lo)))
 //@ func (*DefaultFanController).calculateTargetPwm
@@ -106,7 +106,7 @@ package controller
 //@   modifies f.fan.(*fans.FileFan).Rpm, f.fan.(*fans.FileFan).Pwm, f.fan.(*fans.CmdFan).Rpm, f.fan.(*fans.CmdFan).Pwm
 //@   modifies f.controlLoop.(*control_loop.DirectControlLoop).lastTime
 //@   modifies each(*curves.LinearSpeedCurve).Value, each(*curves.FunctionSpeedCurve).Value, each(*curves.PidSpeedCurve).Value, lastAvgRead, lastValue, lastInterp, segLo, segHi, segHit, memberVals, memberCount
-//@   modifies each(*util.PidLoop).integral, each(*util.PidLoop).error, each(*util.PidLoop).lastTime, lastPidOut, pidSteps, lastCycleOut, procWorld, started, lastReadFailed, supportsResult
+//@   modifies each(*util.PidLoop).integral, each(*util.PidLoop).error, each(*util.PidLoop).lastTime, lastPidOut, pidSteps, lastCycleOut, procWorld, started, lastReadFailed, enableReads, supportsResult
 
 //@ ghost var modeVerified gmap[int]bool
 //@ func trySetManualPwm
@@ -118,7 +118,7 @@ package controller
 //@   ensures[C05.manual] modeVerified[fan] ==> fileInt[fans.hwEnablePath(fan.(*fans.HwMonFan))] == 1
 //@   ensures[C05.pwmfile] fan is *fans.HwMonFan ==> fileInt[fans.hwPwmPath(fan.(*fans.HwMonFan))] == old(fileInt)[fans.hwPwmPath(fan.(*fans.HwMonFan))]
 //@   ensures[C05.nopwm C01] pwmWrites == old(pwmWrites)
-//@   modifies modeWrites, lastMode, fileInt, lastReadFailed, supportsResult, modeVerified
+//@   modifies modeWrites, lastMode, fileInt, lastReadFailed, enableReads, supportsResult, modeVerified
 
 //@ func (*DefaultFanController).UpdateFanSpeed
 //@   params (f)
@@ -141,7 +141,7 @@ package controller
 //@   modifies f.fan.(*fans.FileFan).Rpm, f.fan.(*fans.FileFan).Pwm, f.fan.(*fans.CmdFan).Rpm, f.fan.(*fans.CmdFan).Pwm
 //@   modifies f.controlLoop.(*control_loop.DirectControlLoop).lastTime
 //@   modifies each(*curves.LinearSpeedCurve).Value, each(*curves.FunctionSpeedCurve).Value, each(*curves.PidSpeedCurve).Value, lastAvgRead, lastValue, lastInterp, segLo, segHi, segHit, memberVals, memberCount
-//@   modifies each(*util.PidLoop).integral, each(*util.PidLoop).error, each(*util.PidLoop).lastTime, lastPidOut, pidSteps, lastCycleOut, procWorld, started, lastReadFailed, supportsResult
+//@   modifies each(*util.PidLoop).integral, each(*util.PidLoop).error, each(*util.PidLoop).lastTime, lastPidOut, pidSteps, lastCycleOut, procWorld, started, lastReadFailed, enableReads, supportsResult
 
 // ---- RPM monitor step and stall handling (C10) ---------------------------------------------------------
 //@ func (*DefaultFanController).measureRpm
@@ -155,7 +155,7 @@ package controller
 //@   ensures fans.fanWF(fan)
 //@   ensures[C10.floorframe C02] floorOf(f) == old(floorOf(f)) && f.lastSetPwm == old(f.lastSetPwm) && pwmWrites == old(pwmWrites)
 //@   modifies f.fan.(*fans.HwMonFan).RpmMovingAvg, f.fan.(*fans.HwMonFan).Pwm, f.fan.(*fans.HwMonFan).Rpm, f.fan.(*fans.HwMonFan).FanCurveData, (*f.fan.(*fans.HwMonFan).FanCurveData)[_]
-//@   modifies f.fan.(*fans.FileFan).Rpm, f.fan.(*fans.FileFan).Pwm, f.fan.(*fans.CmdFan).Rpm, f.fan.(*fans.CmdFan).Pwm, procWorld, started, lastReadFailed, supportsResult, lastRpmRead
+//@   modifies f.fan.(*fans.FileFan).Rpm, f.fan.(*fans.FileFan).Pwm, f.fan.(*fans.CmdFan).Rpm, f.fan.(*fans.CmdFan).Pwm, procWorld, started, lastReadFailed, enableReads, supportsResult, lastRpmRead
 
 // ---- stopping regulation (C03, C09) -----------------------------------------------------------------------
 //@ ghost var restored gset[int]
@@ -170,7 +170,7 @@ package controller
 //@   ensures restored == old(restored)[f := true]
 //@   ensures[C03.final] modeRestored(f) || (lastPwm[f.fan] == 255 && pwmWrites[f.fan] > old(pwmWrites)[f.fan])
 //@   ensures[C03.fullspeed] !modeRestored(f) && !lastPwmErr[f.fan] && f.fan is *fans.HwMonFan && fans.hwPwmPath(f.fan.(*fans.HwMonFan)) in faithful ==> fileInt[fans.hwPwmPath(f.fan.(*fans.HwMonFan))] == 255
-//@   modifies restored, pwmWrites, lastPwm, lastPwmErr, modeWrites, lastMode, fileInt, procWorld, started, lastReadFailed, supportsResult
+//@   modifies restored, pwmWrites, lastPwm, lastPwmErr, modeWrites, lastMode, fileInt, procWorld, started, lastReadFailed, enableReads, supportsResult
 
 //@ func (*DefaultFanController).Run$1
 //@   props C09
@@ -236,7 +236,7 @@ package controller
 //@   requires[C16.sweep C16] serialised()
 //@   ensures held == old(held) && unlocks == old(unlocks)
 //@   ensures f.pwmMap != nil
-//@   modifies f.pwmMap, pwmWrites, lastPwm, lastPwmErr, modeWrites, lastMode, modeVerified, fileInt, procWorld, started, lastReadFailed, supportsResult, f.fan.(*fans.HwMonFan).Pwm, f.fan.(*fans.FileFan).Pwm, f.fan.(*fans.CmdFan).Pwm
+//@   modifies f.pwmMap, pwmWrites, lastPwm, lastPwmErr, modeWrites, lastMode, modeVerified, fileInt, procWorld, started, lastReadFailed, enableReads, supportsResult, f.fan.(*fans.HwMonFan).Pwm, f.fan.(*fans.FileFan).Pwm, f.fan.(*fans.CmdFan).Pwm
 //@   loop 1 "for i := fans.MaxPwmValue; i >= fans.MinPwmValue; i--"
 //@     invariant pwmMap != nil && fresh(pwmMap) && fans.fanWF(f.fan) && f.fan == old(f.fan)
 
@@ -250,7 +250,7 @@ package controller
 //@   ensures[C15.stored] old(cfgMap(f.fan)) == nil && mapLoadOK[old(mapLoadCount)] && mapLoadRes[old(mapLoadCount)] != 0 ==> err == nil && ref(f.pwmMap) == mapLoadRes[old(mapLoadCount)] && pwmWrites == old(pwmWrites) && modeWrites == old(modeWrites)
 //@   ensures[C15.persist] old(cfgMap(f.fan)) == nil && err == nil && !(mapLoadOK[old(mapLoadCount)] && mapLoadRes[old(mapLoadCount)] != 0) ==> dbHas["fanPwmMap"][persistence.fanId(f.fan)]
 //@   ensures f.fan == old(f.fan) && f.persistence == old(f.persistence) && persistence.dbWF() && initRuns == old(initRuns)
-//@   modifies f.pwmMap, each(map[int]int)[_], pwmWrites, lastPwm, lastPwmErr, modeWrites, lastMode, modeVerified, fileInt, procWorld, started, lastReadFailed, supportsResult, f.fan.(*fans.HwMonFan).Pwm, f.fan.(*fans.FileFan).Pwm, f.fan.(*fans.CmdFan).Pwm
+//@   modifies f.pwmMap, each(map[int]int)[_], pwmWrites, lastPwm, lastPwmErr, modeWrites, lastMode, modeVerified, fileInt, procWorld, started, lastReadFailed, enableReads, supportsResult, f.fan.(*fans.HwMonFan).Pwm, f.fan.(*fans.FileFan).Pwm, f.fan.(*fans.CmdFan).Pwm
 //@   modifies dbBucket, dbHas, dbVal, txBucket, txHas, txVal, txStarted, txCommits, decodeFailed, mapLoadCount, mapLoadOK, mapLoadRes
 
 //@ func (*DefaultFanController).computePwmMap
@@ -264,12 +264,12 @@ package controller
 //@   ensures[C15.stored] old(cfgMap(f.fan)) == nil && mapLoadOK[old(mapLoadCount)] && mapLoadRes[old(mapLoadCount)] != 0 ==> err == nil && ref(f.pwmMap) == mapLoadRes[old(mapLoadCount)] && pwmWrites == old(pwmWrites) && modeWrites == old(modeWrites)
 //@   ensures[C15.persist] old(cfgMap(f.fan)) == nil && err == nil && !(mapLoadOK[old(mapLoadCount)] && mapLoadRes[old(mapLoadCount)] != 0) ==> dbHas["fanPwmMap"][persistence.fanId(f.fan)]
 //@   ensures f.fan == old(f.fan) && f.persistence == old(f.persistence) && persistence.dbWF() && initRuns == old(initRuns)
-//@   modifies f.pwmMap, each(map[int]int)[_], pwmWrites, lastPwm, lastPwmErr, modeWrites, lastMode, modeVerified, fileInt, procWorld, started, lastReadFailed, supportsResult, f.fan.(*fans.HwMonFan).Pwm, f.fan.(*fans.FileFan).Pwm, f.fan.(*fans.CmdFan).Pwm
+//@   modifies f.pwmMap, each(map[int]int)[_], pwmWrites, lastPwm, lastPwmErr, modeWrites, lastMode, modeVerified, fileInt, procWorld, started, lastReadFailed, enableReads, supportsResult, f.fan.(*fans.HwMonFan).Pwm, f.fan.(*fans.FileFan).Pwm, f.fan.(*fans.CmdFan).Pwm
 //@   modifies dbBucket, dbHas, dbVal, txBucket, txHas, txVal, txStarted, txCommits, decodeFailed, mapLoadCount, mapLoadOK, mapLoadRes, held, unlocks
 
 //@ opaque func (*DefaultFanController).waitForFanToSettle
 //@   params (f, fan)
-//@   modifies fan.(*fans.FileFan).Rpm, fan.(*fans.CmdFan).Rpm, procWorld, started, lastReadFailed, lastRpmRead
+//@   modifies fan.(*fans.FileFan).Rpm, fan.(*fans.CmdFan).Rpm, procWorld, started, lastReadFailed, enableReads, lastRpmRead
 //@   trusted "polls the RPM input until ten consecutive differences are small; body not verified (rolling-window library), termination not claimed"
 
 //@ func (*DefaultFanController).RunInitializationSequence
